@@ -408,7 +408,17 @@ class DocState:
         self.default_role = settings.get("default_role")
         self.parser = settings.get("parser", False)
         self.preads_cfg = settings.get("primary_reads", True)
+        self.func = settings.get("func", "pg")
         self.shard, self.role, self.preads = None, "default", "default"
+        self.role_default = self.default_role      # the pool default as it was when the session took it (connect or SET .. 'default')
+
+    def reconfigure(self, settings):
+        """a RELOAD rebuilt the pool: later commands are judged by the new settings; what the SETs established stays"""
+        self.n = settings.get("shards", 1)
+        self.default_role = settings.get("default_role")
+        self.parser = settings.get("parser", False)
+        self.preads_cfg = settings.get("primary_reads", True)
+        self.func = settings.get("func", "pg")
 
     def apply(self, cmd, cap, chosen_shard):
         """returns the expected reply kind"""
@@ -428,6 +438,8 @@ class DocState:
             return "err"
         if cmd == "SetServerRole":
             self.role = w
+            if w == "default":
+                self.role_default = self.default_role
             return "ok"
         if cmd == "SetPrimaryReads":
             self.preads = w
@@ -440,8 +452,8 @@ class DocState:
         if cmd == "ShowServerRole":
             if self.role != "default":
                 return self.role.encode()
-            if self.default_role:
-                return self.default_role.encode()
+            if self.role_default:
+                return self.role_default.encode()
             return b"auto" if self.parser else b"any"
         v = {"on": True, "off": False, "default": self.preads_cfg}[self.preads]
         return b"on" if v else b"off"
@@ -1033,14 +1045,33 @@ WIRE_SHARD = {"s0": 0, "s0r": 0, "s1": 1, "s1r": 1, "s2": 2, "s2r": 2}
 WIRE_NSH = 3
 
 
-def wire_toml(parser, preads):
+def wire_toml(st):
     from props import wirelib as W
+    shards = [{"servers": [["s%d" % i, "primary"], ["s%dr" % i, "replica"]]} for i in range(st.get("shards", WIRE_NSH))]
     return W.make_toml(pools={"db": {
-        "opts": {"query_parser_enabled": parser, "query_parser_read_write_splitting": False, "primary_reads_enabled": preads,
-                 "default_role": "any", "sharding_function": "pg_bigint_hash"},
-        "users": [{"pool_size": 2}],
-        "shards": [{"servers": [["s0", "primary"], ["s0r", "replica"]]}, {"servers": [["s1", "primary"], ["s1r", "replica"]]},
-                   {"servers": [["s2", "primary"], ["s2r", "replica"]]}]}})
+        "opts": {"query_parser_enabled": st["parser"], "query_parser_read_write_splitting": False, "primary_reads_enabled": st["primary_reads"],
+                 "default_role": st.get("default_role") or "any", "sharding_function": "sha1" if st.get("func") == "sha1" else "pg_bigint_hash"},
+        "users": [{"pool_size": st.get("pool_size", 2)}],
+        "shards": shards}})
+
+
+OTHERS = ["reload_same", "reload_pool_size", "reload_default_role", "reload_sharding_function", "reload_shards", "pause_resume", "txn", "refused", "admin_reload_same"]
+
+
+def apply_other(what, st, rng=None, choice=None):
+    """the settings in force after the event (a copy), None if unchanged"""
+    n = dict(st)
+    if what == "reload_pool_size":
+        n["pool_size"] = 5 - st.get("pool_size", 2)          # 2 <-> 3
+    elif what == "reload_default_role":
+        n["default_role"] = choice
+    elif what == "reload_sharding_function":
+        n["func"] = "pg" if st.get("func") == "sha1" else "sha1"
+    elif what == "reload_shards":
+        n["shards"] = 5 - st.get("shards", WIRE_NSH)         # 3 <-> 2
+    else:
+        return None
+    return n
 
 
 def respell(rng, q):
@@ -1055,10 +1086,31 @@ def respell(rng, q):
     return rng.choice(["", "", " ", "   "]) + q + rng.choice(["", "", ";", " ;", "; ", "  ", " ;  "])
 
 
-def gen_wire_session(rng, t):
-    """[(kind, text, tag)]: kind 'cmd' (a documented command in some spelling) or 'stmt' (anything else, tagged)"""
+def gen_wire_session(rng, t, st0=None):
+    """[(kind, text, tag)]: kind 'cmd' (a documented command in some spelling), 'stmt' (anything else, tagged),
+    'refstmt' (a tagged statement sent while every server refuses connections) or 'other' (text = one of OTHERS,
+    tag = the settings in force afterwards or None): something that is not a command, placed between a SET and
+    the SHOWs that must still report it."""
     items = []
     ntag = [0]
+    cur = dict(st0 or {"shards": WIRE_NSH, "parser": False, "primary_reads": True})
+    refusal = False     # (a checkout refused by the SERVERS ends the session on the wire: C07; the refused checkout exercised here is the one of a shard that a RELOAD removed)
+
+    def other():
+        if rng.random() < 0.35:
+            return
+        what = rng.choice([w for w in OTHERS if w != "refused"] + ["reload_pool_size", "reload_default_role"])
+        if refusal and what == "txn":
+            what = "reload_same"
+        if what == "txn":
+            for sql in ("BEGIN", rng.choice(["SELECT 1", "UPDATE t SET a = 2"]), "COMMIT"):
+                stmt(sql)
+            return
+        new = apply_other(what, cur, choice=rng.choice([None, "primary", "replica"]))
+        if new is not None:
+            cur.clear()
+            cur.update(new)
+        items.append(("other", what, dict(cur) if new is not None else None))
 
     def stmt(sql):
         tag = "t%d_%d" % (t, ntag[0])
@@ -1066,6 +1118,7 @@ def gen_wire_session(rng, t):
         items.append(("stmt", "%s /*%s*/" % (sql, tag), tag))
 
     def shows(first=None):
+        other()
         ss = ["SHOW SHARD", "SHOW SERVER ROLE", "SHOW PRIMARY READS"]
         rng.shuffle(ss)
         if first:
@@ -1096,10 +1149,18 @@ def gen_wire_session(rng, t):
             items.append(("cmd", respell(rng, "SET PRIMARY READS TO " + rng.choice(["%s", "'%s'"]) % v), None))
             shows("SHOW PRIMARY READS")
         else:
-            stmt(rng.choice(["SET SHARD TO 1; SELECT 1", "SELECT 1; SET SHARD TO 2", "SET SHARD TO -1", "SHOW SHARDS", "SHOW SHARD;;", "SET SERVER ROLE TO primary",
+            if not refusal:
+                stmt(rng.choice(["SET SHARD TO 1; SELECT 1", "SELECT 1; SET SHARD TO 2", "SET SHARD TO -1", "SHOW SHARDS", "SHOW SHARD;;", "SET SERVER ROLE TO primary",
                              "SELECT 'SET SHARD TO 1'", "SET  SHARD TO 1", "SHOW\tSHARD", "SET SHARDING KEY TO 'abc'", "SET PRIMARY READS TO yes", "SET SHARD TO 0; SELECT 42"]))
-        for _ in range(rng.choice([0, 1, 1, 2])):
+        for _ in range(0 if refusal else rng.choice([0, 1, 1, 2])):
             stmt(rng.choice(["SELECT 1", "SELECT 2", "INSERT INTO t VALUES (1)", "UPDATE t SET a = 1", "SELECT now()"]))
+    if refusal:
+        # a checkout that is refused (no server accepts a connection), then every SHOW
+        k = rng.randint(1, len(items))
+        while k < len(items) and items[k][0] == "cmd" and (PyRegexOracle(T.PINNED_REGEXES).classify(items[k][1].encode()) or ("",))[0].startswith("Show"):
+            k += 1
+        tag = "t%d_r" % t
+        items[k:k] = [("refstmt", "SELECT 99 /*%s*/" % tag, tag), ("cmd", "SHOW SHARD", None), ("cmd", "SHOW SERVER ROLE", None), ("cmd", "SHOW PRIMARY READS", None)]
     return items
 
 
@@ -1107,11 +1168,18 @@ def qframe(sql: bytes) -> bytes:
     return b"Q" + struct.pack(">i", len(sql) + 5) + sql + b"\0"
 
 
+def key_shard(func, key, n):
+    from props.c06 import pg_partition, sha1_rule
+    return sha1_rule(key, n) if func == "sha1" else pg_partition(key, n)
+
+
 def monitor_wire(oracle, settings, items, replies, landed, forwarded):
     """the property on what the client and the mock backends saw; no model involved.
-    replies[i]: raw bytes the client read for item i; landed[tag] = (backend, raw hex);
-    forwarded: every simple-query text that reached any backend."""
-    from props.c06 import pg_partition
+    replies[i]: raw bytes the client read for item i (None for 'other' items); landed[tag] = (backend, raw hex, times);
+    forwarded: every simple-query text that reached any backend.
+    Whatever is not a SET (statements, transactions, RELOAD with or without a rebuilt pool, PAUSE/RESUME, a
+    refused checkout) must leave what the SETs established untouched; a RELOAD only changes the settings later
+    commands are judged by."""
     doc = DocState(settings)
     pending_any = False
     problems = []
@@ -1120,28 +1188,40 @@ def monitor_wire(oracle, settings, items, replies, landed, forwarded):
             problems.append((-1, "the command %r was forwarded to a server" % sql))
             return problems
     for i, ((kind, text, tag), raw) in enumerate(zip(items, replies)):
+        if kind == "other":
+            if tag is not None:
+                doc.reconfigure(tag)
+            continue
         q = text.encode()
         want = oracle.classify(q)
         if want is None:
+            if pending_any:
+                problems.append((i, "generator: statement before the SHOW SHARD that fixes ANY"))
+                break
+            sh = 0 if doc.shard is None else doc.shard
+            if sh >= doc.n:
+                # the selected shard is not configured any more (a RELOAD removed it): the checkout is refused
+                rep = parse_reply(raw)
+                if tag in landed or rep is None or rep[0] != "err":
+                    problems.append((i, "statement %r with selected shard %d of %d: expected a refusal (ErrorResponse, ReadyForQuery), got %s, reached %s" % (text, sh, doc.n, rep, landed.get(tag, (None,))[0])))
+                    break
+                continue
             if tag not in landed:
-                problems.append((i, "the ordinary statement %r did not reach any server" % text))
+                problems.append((i, "the ordinary statement %r did not reach any server (reply %s)" % (text, parse_reply(raw))))
                 break
             be, rawhex, times = landed[tag]
             if times != 1 or bytes.fromhex(rawhex) != qframe(q):
                 problems.append((i, "the ordinary statement %r reached the server %d time(s) as %s" % (text, times, rawhex)))
                 break
-            sh = 0 if doc.shard is None else doc.shard
-            if pending_any:
-                problems.append((i, "generator: statement before the SHOW SHARD that fixes ANY"))
-                break
             if WIRE_SHARD[be] != sh:
                 problems.append((i, "statement %r ran on %s (shard %d) but the selected shard is %s" % (text, be, WIRE_SHARD[be], sh)))
                 break
-            if doc.role in ("primary", "replica") and be.endswith("r") != (doc.role == "replica"):
-                problems.append((i, "statement %r ran on %s although SET SERVER ROLE established %s" % (text, be, doc.role)))
+            eff = doc.role if doc.role != "default" else doc.role_default
+            if eff in ("primary", "replica") and be.endswith("r") != (eff == "replica"):
+                problems.append((i, "statement %r ran on %s although the session's role is %s (SET SERVER ROLE / pool default taken by the session)" % (text, be, eff)))
                 break
             continue
-        if tag in landed if tag else False:
+        if tag and tag in landed:
             problems.append((i, "command reached a server"))
             break
         rep = parse_reply(raw)
@@ -1153,7 +1233,7 @@ def monitor_wire(oracle, settings, items, replies, landed, forwarded):
             kindw = "ok"
             pending_any = True
         else:
-            chosen = pg_partition(int(cap), WIRE_NSH) if cmd == "SetShardingKey" and int(cap) <= I64_MAX else None
+            chosen = key_shard(doc.func, int(cap), doc.n) if cmd == "SetShardingKey" and int(cap) <= I64_MAX else None
             kindw = doc.apply(cmd, cap, chosen)
             if cmd in ("SetShard", "SetShardingKey") and kindw == "ok":
                 pending_any = False
@@ -1168,12 +1248,13 @@ def monitor_wire(oracle, settings, items, replies, landed, forwarded):
                 problems.append((i, "%r: column %r" % (text, rep[1])))
                 break
             if cmd == "ShowShard" and pending_any:
-                if not (rep[2].isdigit() and int(rep[2]) < WIRE_NSH):
-                    problems.append((i, "after SET SHARD TO ANY, SHOW SHARD reports %r (%d shards)" % (rep[2], WIRE_NSH)))
+                if not (rep[2].isdigit() and int(rep[2]) < doc.n):
+                    problems.append((i, "after SET SHARD TO ANY, SHOW SHARD reports %r (%d shards)" % (rep[2], doc.n)))
                     break
                 doc.shard, pending_any = int(rep[2]), False
             elif rep[2] != doc.show(cmd):
-                problems.append((i, "%r reports %r but the preceding SETs established %r" % (text, rep[2], doc.show(cmd))))
+                hist = [x[1] for x in items[:i + 1]]
+                problems.append((i, "%r reports %r but the preceding SETs established %r (history %s)" % (text, rep[2], doc.show(cmd), hist)))
                 break
     return problems
 
@@ -1183,11 +1264,18 @@ def wire_observe(res, items):
     if "harness_error" in res or "start_error" in res:
         return None, None, None, "wire harness failed: %s" % (res.get("harness_error") or res.get("start_error"))
     recvs = [e for e in res["events"] if e.get("ev") == "recv" and e.get("who") == "c1"]
-    if len(recvs) != len(items) or any(e.get("outcome") != "ok" for e in recvs):
+    qi = [i for i, x in enumerate(items) if x[0] != "other"]
+    if len(recvs) != len(qi) or any(e.get("outcome") != "ok" for e in recvs):
         bad = next((i for i, e in enumerate(recvs) if e.get("outcome") != "ok"), len(recvs))
-        return None, None, None, "no complete reply (ending in ReadyForQuery) to step %d %r: outcomes %s, task results %s" % (
-            bad, items[bad][1] if bad < len(items) else None, [e.get("outcome") for e in recvs][-3:], res.get("task_results"))
-    replies = [bytes.fromhex(e["raw"]) for e in recvs]
+        return None, None, None, "no complete reply (ending in ReadyForQuery) to %r after %s: outcomes %s, task results %s" % (
+            items[qi[bad]][1] if bad < len(qi) else None, [x[1] for x in items[:qi[bad]]] if bad < len(qi) else "?", [e.get("outcome") for e in recvs][-3:], res.get("task_results"))
+    adm_bad = [e for e in res["events"] if e.get("ev") == "recv" and e.get("who") == "adm" and e.get("outcome") != "ok"]
+    rl = [e.get("result") for e in res["events"] if e.get("ev") == "reload"]
+    if adm_bad or any(not str(r).startswith("Ok") for r in rl):
+        return None, None, None, "wire harness failed: admin command / reload did not complete: %s %s" % (adm_bad[:1], rl)
+    replies = [None] * len(items)
+    for i, e in zip(qi, recvs):
+        replies[i] = bytes.fromhex(e["raw"])
     landed, forwarded = {}, []
     for e in res["events"]:
         if e.get("ev") == "msg" and e.get("tag") == "Q":
@@ -1202,36 +1290,76 @@ def wire_observe(res, items):
 
 def wire_scenario(settings, items):
     steps = [{"op": "connect", "c": "c1", "params": {"user": "u", "database": "db"}, "password": "pw"}]
+    if any(k == "other" and w in ("pause_resume", "admin_reload_same") for k, w, _ in items):
+        steps.append({"op": "connect", "c": "adm", "params": {"user": "admin", "database": "pgcat"}, "password": "adminpw"})
+
+    def adm(sql):
+        return [{"op": "send", "c": "adm", "msgs": [{"t": "Q", "sql": sql}]}, {"op": "recv", "c": "adm", "until": "Z", "timeout_ms": 4000}]
     for i, (kind, text, tag) in enumerate(items):
-        steps += [{"op": "send", "c": "c1", "msgs": [{"t": "Q", "sql": text}]}, {"op": "recv", "c": "c1", "until": "Z", "timeout_ms": 4000, "label": "i%d" % i}]
-    return {"backends": [{"name": n} for n in WIRE_BACKENDS], "toml": wire_toml(settings["parser"], settings["primary_reads"]), "hex": True, "steps": steps}
+        if kind == "other":
+            if text == "pause_resume":
+                steps += adm("PAUSE") + adm("RESUME")
+            elif text == "admin_reload_same":
+                steps += adm("RELOAD")
+            elif text == "reload_same":
+                steps.append({"op": "reload"})
+            else:
+                steps += [{"op": "write_config", "toml": wire_toml(tag)}, {"op": "reload"}]
+            continue
+        if kind == "refstmt":
+            steps += [{"op": "backend", "b": b, "mode": "refuse"} for b in WIRE_BACKENDS]
+        steps += [{"op": "send", "c": "c1", "msgs": [{"t": "Q", "sql": text}]}, {"op": "recv", "c": "c1", "until": "Z", "timeout_ms": 6000, "label": "i%d" % i}]
+        if kind == "refstmt":
+            steps += [{"op": "backend", "b": b, "mode": "normal"} for b in WIRE_BACKENDS]
+    return {"backends": [{"name": n} for n in WIRE_BACKENDS], "toml": wire_toml(settings), "hex": True, "steps": steps}
 
 
 def check_wire(run, quick, proof_ok, oracle, distinct, samples, dist):
     from props import wirelib as W
-    from props.c06 import pg_partition
     ok, blog, bins = vlib.cargo_build(["wire"])
     if not ok:
         run.violation("tie-broken", "wire harness does not build against /repo", {"correspondence": "wire harness build", "log": blog[-3000:]}, found_input=False)
         return 0
     wire = bins["wire"]
     rng = run.rng
-    nsess = 100 if quick else 1200
+    nsess = 110 if quick else 1200
+    base = {"shards": WIRE_NSH, "parser": False, "primary_reads": True}
+    FIXED = [
+        # the restore after a refused SET SHARD, big numbers, every SHOW
+        (dict(base, parser=True),
+         [("cmd", "SET SHARD TO 2", None), ("cmd", "SHOW SHARD", None), ("stmt", "SELECT 1 /*t0_0*/", "t0_0"), ("cmd", "SET SHARD TO 7", None), ("cmd", "SHOW SHARD", None),
+          ("stmt", "SELECT 2 /*t0_1*/", "t0_1"), ("cmd", "set shard to '99999999999999999999999';", None), ("cmd", "SHOW SHARD", None),
+          ("cmd", "SET SHARDING KEY TO 9223372036854775808", None), ("cmd", "SHOW SHARD", None), ("cmd", "SET SHARDING KEY TO '12'", None), ("cmd", "SHOW SHARD", None),
+          ("stmt", "SET SHARD TO 0; SELECT 42 /*t0_2*/", "t0_2"), ("cmd", "SET SERVER ROLE TO 'Replica'", None), ("cmd", "SHOW SERVER ROLE", None), ("stmt", "SELECT 3 /*t0_3*/", "t0_3"),
+          ("cmd", "SET PRIMARY READS TO OFF", None), ("cmd", "SHOW PRIMARY READS", None), ("cmd", "SET SERVER ROLE TO 'default'", None), ("cmd", "SHOW SERVER ROLE", None)]),
+        # every SET, then a RELOAD that rebuilds the pool (pool_size), an unchanged RELOAD, PAUSE/RESUME, a transaction: every SHOW still reports it
+        (dict(base, default_role="replica"),
+         [("cmd", "SHOW SERVER ROLE", None), ("stmt", "SELECT 0 /*t1_0*/", "t1_0"), ("cmd", "SET SERVER ROLE TO 'primary'", None), ("cmd", "SET SHARD TO 1", None), ("cmd", "SET PRIMARY READS TO off", None),
+          ("cmd", "SHOW SERVER ROLE", None), ("stmt", "SELECT 1 /*t1_1*/", "t1_1"), ("other", "reload_same", None), ("cmd", "SHOW SERVER ROLE", None),
+          ("other", "reload_pool_size", dict(base, default_role="replica", pool_size=3)), ("cmd", "SHOW SERVER ROLE", None), ("cmd", "SHOW SHARD", None), ("cmd", "SHOW PRIMARY READS", None),
+          ("stmt", "SELECT 3 /*t1_2*/", "t1_2"), ("other", "pause_resume", None), ("cmd", "SHOW SERVER ROLE", None), ("stmt", "BEGIN /*t1_3*/", "t1_3"), ("stmt", "SELECT 4 /*t1_4*/", "t1_4"),
+          ("stmt", "COMMIT /*t1_5*/", "t1_5"), ("cmd", "SHOW SERVER ROLE", None), ("cmd", "SHOW SHARD", None), ("other", "admin_reload_same", None), ("cmd", "SHOW PRIMARY READS", None),
+          ("cmd", "SET SHARDING KEY TO 12", None), ("other", "reload_pool_size", dict(base, default_role="replica", pool_size=2)), ("cmd", "SHOW SHARD", None), ("stmt", "SELECT 5 /*t1_6*/", "t1_6")]),
+        # a RELOAD removes the selected shard: SHOW keeps it, statements are refused (the refused checkout), SET SHARD TO 2 is refused, a new SET works
+        (dict(base),
+         [("cmd", "SET SHARD TO 2", None), ("cmd", "SET SERVER ROLE TO 'primary'", None), ("other", "reload_shards", dict(base, shards=2)), ("cmd", "SHOW SHARD", None), ("cmd", "SHOW SERVER ROLE", None),
+          ("stmt", "SELECT 1 /*t2_0*/", "t2_0"), ("cmd", "SHOW SHARD", None), ("cmd", "SHOW SERVER ROLE", None), ("cmd", "SET SHARD TO 2", None), ("cmd", "SHOW SHARD", None), ("cmd", "SET SHARD TO 1", None),
+          ("stmt", "SELECT 2 /*t2_1*/", "t2_1"), ("other", "reload_shards", dict(base, shards=3)), ("cmd", "SHOW SHARD", None), ("cmd", "SET SHARD TO 2", None), ("stmt", "SELECT 3 /*t2_2*/", "t2_2")]),
+    ]
     metas, scns = [], []
     for t in range(nsess):
-        settings = {"shards": WIRE_NSH, "parser": t % 2 == 0, "primary_reads": rng.random() < 0.6}
-        if t == 0:      # the restore after a refused SET SHARD, big numbers, every SHOW: always present
-            items = [("cmd", "SET SHARD TO 2", None), ("cmd", "SHOW SHARD", None), ("stmt", "SELECT 1 /*t0_0*/", "t0_0"), ("cmd", "SET SHARD TO 7", None), ("cmd", "SHOW SHARD", None),
-                     ("stmt", "SELECT 2 /*t0_1*/", "t0_1"), ("cmd", "set shard to '99999999999999999999999';", None), ("cmd", "SHOW SHARD", None),
-                     ("cmd", "SET SHARDING KEY TO 9223372036854775808", None), ("cmd", "SHOW SHARD", None), ("cmd", "SET SHARDING KEY TO '12'", None), ("cmd", "SHOW SHARD", None),
-                     ("stmt", "SET SHARD TO 0; SELECT 42 /*t0_2*/", "t0_2"), ("cmd", "SET SERVER ROLE TO 'Replica'", None), ("cmd", "SHOW SERVER ROLE", None), ("stmt", "SELECT 3 /*t0_3*/", "t0_3"),
-                     ("cmd", "SET PRIMARY READS TO OFF", None), ("cmd", "SHOW PRIMARY READS", None), ("cmd", "SET SERVER ROLE TO 'default'", None), ("cmd", "SHOW SERVER ROLE", None)]
+        if t < len(FIXED):
+            settings, items = FIXED[t]
         else:
-            items = gen_wire_session(rng, t)
+            settings = dict(base, parser=t % 2 == 0, primary_reads=rng.random() < 0.6)
+            dr = rng.choice([None, None, "primary", "replica"])
+            if dr:
+                settings["default_role"] = dr
+            items = gen_wire_session(rng, t, settings)
         metas.append((settings, items))
         scns.append(wire_scenario(settings, items))
-    results = W.run_scenarios(wire, scns, timeout=90)
-    n, ncmd, nstmt = 0, 0, 0
+    results = W.run_scenarios(wire, scns, timeout=120)
+    n, ncmd, nstmt, nother, nrefused = 0, 0, 0, {}, 0
     exprs, keep = [], []
     for (settings, items), scn, res in zip(metas, scns, results):
         replies, landed, forwarded, err = wire_observe(res, items)
@@ -1240,26 +1368,32 @@ def check_wire(run, quick, proof_ok, oracle, distinct, samples, dist):
             if err.startswith("wire harness failed"):
                 run.broken.append(err)
             else:
-                run.violation("counterexample", "wire session %s under %s: %s" % ([x[1] for x in items], settings, err), rp)
+                run.violation("counterexample", "wire session under %s: %s" % (settings, err), rp)
             return n
         problems = monitor_wire(oracle, settings, items, replies, landed, forwarded)
         if problems:
             i, msg = problems[0]
             run.violation("counterexample", "wire session %s under %s: step %d: %s" % ([x[1] for x in items[:i + 1]] if i >= 0 else [x[1] for x in items], settings, i, msg), dict(rp, monitor=msg))
             return n
-        # the model's inputs: environment choices read back from the trace
-        steps = []
+        # the model's inputs: environment choices read back from the trace, settings changes as EvOther
+        steps, cur, pend = [], dict(settings), None
         for i, (kind, text, tag) in enumerate(items):
+            if kind == "other":
+                nother[text] = nother.get(text, 0) + 1
+                if tag is not None:
+                    cur, pend = dict(tag), dict(tag)
+                continue
             want = oracle.classify(text.encode())
             orc = 0
             if want and want[0] == "SetShard" and want[1].lower() == b"any":
-                nxt = next((j for j in range(i + 1, len(items)) if (oracle.classify(items[j][1].encode()) or ("",))[0] == "ShowShard"), None)
+                nxt = next((j for j in range(i + 1, len(items)) if items[j][0] == "cmd" and (oracle.classify(items[j][1].encode()) or ("",))[0] == "ShowShard"), None)
                 orc = int(parse_reply(replies[nxt])[2]) if nxt is not None else 0
             elif want and want[0] == "SetShardingKey" and int(want[1]) <= I64_MAX:
-                orc = pg_partition(int(want[1]), WIRE_NSH)
-            steps.append("(%s, %d)" % (vlib.coq_bytes(text.encode()), orc))
+                orc = key_shard(cur.get("func"), int(want[1]), cur["shards"])
+            steps.append("(%s, (%s, %d))" % ("Some %s" % env_expr(pend) if pend else "None", vlib.coq_bytes(text.encode()), orc))
+            pend = None
         env = env_expr(settings)
-        exprs.append("session_obs %s (init %s) [%s]" % (env, env, "; ".join(steps)))
+        exprs.append("session_obs_ev %s (init %s) [%s]" % (env, env, "; ".join(steps)))
         keep.append((settings, items, replies, landed))
         ncmd += sum(1 for x in items if x[0] == "cmd")
         nstmt += sum(1 for x in items if x[0] == "stmt")
@@ -1267,12 +1401,21 @@ def check_wire(run, quick, proof_ok, oracle, distinct, samples, dist):
         vals = vlib.coq_eval("c13w", PRE, exprs, shard=max(1, (len(exprs) + 15) // 16))
         for (settings, items, replies, landed), v in zip(keep, vals):
             mo = vlib.parse_coq(v)
-            distinct.add(("wire", json.dumps(settings, sort_keys=True), tuple(x[1] for x in items)))
-            for i, ((kind, text, tag), raw, m) in enumerate(zip(items, replies, mo)):
-                mc, mv, mpre, mrep, mpost = m
+            distinct.add(("wire", json.dumps(settings, sort_keys=True), json.dumps(items)))
+            qitems = [(i, x) for i, x in enumerate(items) if x[0] != "other"]
+            nsh = settings["shards"]
+            k = 0
+            for i, (kind, text, tag) in enumerate(items):
+                if kind == "other":
+                    if tag is not None:
+                        nsh = tag["shards"]
+                    continue
+                mc, mv, mpre, mrep, mpost = mo[k]
+                k += 1
+                raw = replies[i]
                 n += 1
                 run.cov["traces_validated_against_impl"] += 1
-                rp = {"kind_of_input": "wire", "correspondence": "Cmd/Model.v handle+encode vs the real Client::handle_custom_protocol on the wire",
+                rp = {"kind_of_input": "wire", "correspondence": "Cmd/Model.v handle+encode (run_ev) vs the real Client::handle_custom_protocol on the wire",
                       "input": {"settings": settings, "items": items[:i + 1]}}
                 if kind == "cmd":
                     if bytes(mrep) != raw:
@@ -1281,13 +1424,18 @@ def check_wire(run, quick, proof_ok, oracle, distinct, samples, dist):
                         return n
                 else:
                     sh, role = coq_obs_state(mpost)[0], coq_obs_state(mpost)[1]
-                    be = landed[tag][0]
-                    if mc != 99 or WIRE_SHARD[be] != (sh or 0) or (role in (1, 2) and be.endswith("r") != (role == 2)):
-                        run.violation("tie-broken", "wire session %s under %s: statement of step %d ran on %s; model: %s, shard %s, role %s" % ([x[1] for x in items[:i + 1]], settings, i, be, "a command" if mc != 99 else "forwarded", sh, role),
-                                      dict(rp, impl=be, model=str(m)), found_input=False)
+                    be = landed.get(tag, (None,))[0]
+                    if be is None:
+                        nrefused += 1
+                    bad = mc != 99 or ((sh or 0) < nsh) != (be is not None) or (be is not None and (WIRE_SHARD[be] != (sh or 0) or (role in (1, 2) and be.endswith("r") != (role == 2))))
+                    if bad:
+                        run.violation("tie-broken", "wire session %s under %s: statement of step %d ran on %s; model: %s, shard %s of %d, role %s" % ([x[1] for x in items[:i + 1]], settings, i, be, "a command" if mc != 99 else "forwarded", sh, nsh, role),
+                                      dict(rp, impl=be, model=str(mo[k - 1])), found_input=False)
                         return n
     dist["wire_sessions"] = len(keep)
     dist["wire_commands_byte_compared"] = ncmd
     dist["wire_statements_routed"] = nstmt
-    samples.append({"kind": "wire", "settings": metas[0][0], "session": [x[1] for x in metas[0][1]], "replies_hex": [r.hex()[:40] for r in (keep[0][2] if keep else [])][:6]})
+    dist["wire_non_command_events_between_set_and_show"] = nother
+    dist["wire_refused_checkouts (selected shard removed by a RELOAD)"] = nrefused
+    samples.append({"kind": "wire", "settings": metas[1][0], "session": [x[1] for x in metas[1][1]][:14]})
     return n
